@@ -695,7 +695,14 @@ impl JitCompiler {
                     self.emit_mov(mem, src, RCX);
                     self.emit_alu32(mem, 0xd3, 7, dst);
                 }
-                ebpf::LE         => {}, // No-op
+                ebpf::LE         => {
+                    // The host is little-endian: only the truncation to the operand width remains.
+                    match insn.imm {
+                        16 => self.emit_alu64_imm32(mem, 0x81, 4, dst, 0xffff), // and dst, 0xffff
+                        32 => self.emit_alu32(mem, 0x89, dst, dst),            // mov dst32, dst32
+                        _ => {}
+                    }
+                },
                 ebpf::BE         => {
                     match insn.imm {
                         16 => {
